@@ -107,7 +107,7 @@ prop("C06", ["PepitVerif/Props/C06.lean", "PepitVerif/Math/AlgebraSem.lean", "Pe
      streams=[stream("tree (random operator trees incl. right-hand operators, cancellations, zero scalars)", "tree", 300, 8000)],
      direct=[oracle("c06_trees", 300, 6000), oracle("c06_kinds", 1, 1)])
 
-prop("C07", ["PepitVerif/Props/C07.lean", "PepitVerif/Math/OracleInv.lean", "PepitVerif/Math/OracleFresh.lean", "PepitVerif/Math/AFunSpec.lean", "PepitVerif/Math/DistributeSpec.lean", "PepitVerif/Math/AddPointSpec.lean", "PepitVerif/Math/RemainderSem.lean", "PepitVerif/Math/AFunSem.lean"],
+prop("C07", ["PepitVerif/Props/C07.lean", "PepitVerif/Math/OracleInv.lean", "PepitVerif/Math/OracleFresh.lean", "PepitVerif/Math/OneValue.lean", "PepitVerif/Math/DictEqv.lean", "PepitVerif/Math/AFunSpec.lean", "PepitVerif/Math/DistributeSpec.lean", "PepitVerif/Math/AddPointSpec.lean", "PepitVerif/Math/RemainderSem.lean", "PepitVerif/Math/AFunSem.lean"],
      streams=[stream("oracle (call sequences on leaf/composite functions; World = AFun = implementation)", "oracle", 300, 8000)],
      direct=[oracle("c07_fuzz", 300, 6000)],
      assumptions=["exact arithmetic: the rounding of remainder / weight is not modelled", "run_inv covers every sequence of oracle/gradient/value calls; stationary_point / fixed_point / steps are covered by the one-step theorems and the streams only", "run_inv assumes Struct: a composite flagged non-differentiable has a non-differentiable term of non-zero weight (false for h = f1 + 0*f2 with f2 non-differentiable)"])
